@@ -193,6 +193,85 @@ theorem write_rows_then_read_ints (c : Writer.Cfg) (hb : 39 ≤ c.buf) (tuple : 
   obtain ⟨s, e, _, h⟩ := write_then_read_ints c hb (rowsOps tuple rows) a b rows.flatten d
   exact ⟨s, e, h⟩
 
+/-! ### (2b) every read plan: tuples `read::<(A,B,…)>()`, `read_vec(n)`, `read::<char>()` -/
+open Rlib.IoRT
+
+/-- **write_then_read_plan.** A *read plan* `gs` is any list of reader calls — `read::<T>()` for one leaf (`T` the leaf's
+    integer type, `String`, or `char` when the leaf is a one-byte word), `read::<(A,B,…)>()` for any number of consecutive
+    leaves, `read_vec::<T>(n)` for `n` consecutive rows of one shape (`T` an atom or a tuple) — whose leaves, in order, are
+    the leaves the script wrote (`hl`). Hypothesis `ht` (weaker than `sepOK`, see `write_then_read_harness_plan`): the
+    specification text splits at whitespace into the leaf texts. Then, for every `BUF_w ≥ 39`, both profiles, every
+    delivery of the dropped writer's sink bytes and every `BUF_r ≥ 1`, the Reader model answers `gs` followed by `is_eof()`
+    with exactly the written values, grouped as the plan groups them, and `true`. -/
+theorem write_then_read_plan (c : Writer.Cfg) (hb : 39 ≤ c.buf) (ops : List Writer.Op)
+    (hv : Writer.Op.validAll ops = true)
+    (ht : Decimal.tokenize (Writer.txt (Writer.specOps ops)) = (Writer.opsLeaves ops).map Writer.leafText)
+    (gs : List Grp) (hg : ∀ g ∈ gs, g.okB = true)
+    (hl : (gs.flatMap Grp.leaves).map Prod.fst = Writer.opsLeaves ops) :
+    ∃ s, Writer.runOps c ops Writer.WState.init = .ok s ∧ (Writer.drop s).sink = Writer.specOps ops ∧
+      ∀ (src : List Event), SrcOk src → srcBytes src = Writer.txt (Writer.drop s).sink →
+      ∀ (BUF : Nat), 0 < BUF → ∀ (fuel : Nat), (srcBytes src).length < fuel →
+        Reader.runScript fuel (script gs) (Reader.init BUF src) = expected gs := by
+  obtain ⟨s, e, hsink⟩ := fresh_drop c hb ops hv
+  refine ⟨s, e, hsink, ?_⟩
+  intro src ok hsrc BUF hB fuel hf
+  rw [hsink] at hsrc
+  obtain ⟨h1, h2⟩ := plan_hyps ops hv gs hl
+  exact read_back_plan gs hg h1 src ok (by rw [hsrc, ht, h2]) BUF hB fuel hf
+
+/-- The plan of the harness (`IoRT.planOps alt`: integers by their type, one-byte words as `char` and homogeneous integer
+    tuples / `Vec`s through `read::<($t,…)>()` / `read_vec::<$t>(n)` when `alt`) is a read plan of every script; so for
+    every valid `sepOK` script the real harness's read-back procedure, run on the models, returns the written values. -/
+theorem write_then_read_harness_plan (c : Writer.Cfg) (hb : 39 ≤ c.buf) (ops : List Writer.Op)
+    (hv : Writer.Op.validAll ops = true) (hs : Writer.sepOK ops = true) (alt : Bool) :
+    ∃ s, Writer.runOps c ops Writer.WState.init = .ok s ∧ (Writer.drop s).sink = Writer.specOps ops ∧
+      ∀ (src : List Event), SrcOk src → srcBytes src = Writer.txt (Writer.drop s).sink →
+      ∀ (BUF : Nat), 0 < BUF → ∀ (fuel : Nat), (srcBytes src).length < fuel →
+        Reader.runScript fuel (script (planOps alt ops)) (Reader.init BUF src) = expected (planOps alt ops) :=
+  write_then_read_plan c hb ops hv (Writer.tokenize_ops ops hs) (planOps alt ops) (planOps_spec alt ops).2
+    (planOps_spec alt ops).1
+
+/-- **readback_driver** — the `M` field `drv_writer` prints for an `r` line equals its `S` field: for every valid,
+    eligible script (`IoRT.eligible`, the domain test harness and driver apply), every `BUF_w ≥ 39`, both profiles, every
+    reader buffer size ≥ 1, every harness delivery parameter `rc` and both read styles, the composed computation
+    `IoRT.readBack` (Reader model on the Writer model's sink bytes under the harness schedule) returns the written values. -/
+theorem readback_driver (c : Writer.Cfg) (hb : 39 ≤ c.buf) (ops : List Writer.Op)
+    (hv : Writer.Op.validAll ops = true) (he : eligible ops = true) (rbuf : Nat) (hr : 0 < rbuf) (rc : Nat) (alt : Bool) :
+    ∃ s, Writer.runOps c ops Writer.WState.init = .ok s ∧
+      readBack rbuf rc alt ops (Writer.txt (Writer.drop s).sink) = expected (planOps alt ops) := by
+  have ht : Decimal.tokenize (Writer.txt (Writer.specOps ops)) = (Writer.opsLeaves ops).map Writer.leafText := by
+    simp only [eligible, Bool.and_eq_true] at he
+    exact eq_of_beq he.1
+  obtain ⟨s, e, _, h⟩ := write_then_read_plan c hb ops hv ht (planOps alt ops) (planOps_spec alt ops).2
+    (planOps_spec alt ops).1
+  refine ⟨s, e, ?_⟩
+  obtain ⟨h1, h2⟩ := harness_src rc (Writer.txt (Writer.drop s).sink)
+  exact h _ h2 h1 rbuf hr _ (by rw [h1]; exact Nat.lt_succ_self _)
+
+/-- **write_chars_then_read.** Characters written with `write_char` (any code points; the byte written is `c as u8`):
+    after drop, under any delivery and buffer sizes, every non-whitespace byte comes back from one `read::<char>()`, in
+    order — whether or not whitespace separates them — and then `is_eof()` is true. -/
+theorem write_chars_then_read (c : Writer.Cfg) (hb : 39 ≤ c.buf) (codes : List Nat) :
+    ∃ s, Writer.runOps c (charOps codes) Writer.WState.init = .ok s ∧
+      (Writer.drop s).sink = Writer.specOps (charOps codes) ∧
+      Writer.txt (Writer.drop s).sink = codes.map UInt8.ofNat ∧
+      ∀ (src : List Event), SrcOk src → srcBytes src = Writer.txt (Writer.drop s).sink →
+      ∀ (BUF : Nat), 0 < BUF → ∀ (fuel : Nat), (srcBytes src).length < fuel →
+        Reader.runScript fuel
+            (((codes.map UInt8.ofNat).filter (fun b => !Reader.isWs b)).map (fun _ => Reader.Op.read .chr) ++ [.eof])
+            (Reader.init BUF src)
+          = ((codes.map UInt8.ofNat).filter (fun b => !Reader.isWs b)).map (fun b => Reader.Res.out (.val (.chr b)))
+              ++ [.out (.bool true)] := by
+  obtain ⟨s, e, hsink⟩ := fresh_drop c hb (charOps codes) (charOps_valid codes)
+  have htxt : Writer.txt (Writer.drop s).sink = codes.map UInt8.ofNat := by rw [hsink, charOps_text]
+  refine ⟨s, e, hsink, htxt, ?_⟩
+  intro src ok hsrc BUF hB fuel hf
+  rw [htxt] at hsrc
+  have hspec := spec_reads_chars (codes.map UInt8.ofNat)
+  have := Reader.runScript_spec BUF hB fuel _ (Reader.init BUF src) (Reader.init_inv BUF src ok)
+    (by rw [Reader.init_R]; exact hf) (by rw [Reader.init_R, hsrc, hspec]; simp)
+  rw [this, Reader.init_R, hsrc, hspec]
+
 /-! ### (3b) lines -/
 
 /-- **write_lines_then_read.** Lines (arbitrary bytes except LF, not ending in CR — blanks, tabs and empty
@@ -302,6 +381,49 @@ example : ∃ s, Writer.runOps ⟨39, true⟩ [.out true [.str "hello".toUTF8, .
     (by decide) (by decide) ["hello".toUTF8, "w0rld!".toUTF8] rfl
   have hb := bytewise_spec (Writer.txt (Writer.drop s).sink)
   exact ⟨s, e, h _ hb.2 hb.1 2 (by decide) _ (by rw [hb.1]; exact Nat.lt_succ_self _)⟩
+
+/-- Read plans: `outln!((i128::MIN, i128::MAX))` read as a tuple, a `Vec<u8>` read with `read_vec`, a one-byte word read as
+    `char`, a two-leaf tuple `(u64, String)` read with a *heterogeneous* tuple read — a plan the harness does not use. -/
+def demoPlanOps : List Writer.Op :=
+  [ .out true [.seq true [.int ⟨true, 128⟩ (-(2 ^ 127)), .int ⟨true, 128⟩ (2 ^ 127 - 1)]],
+    .write (.seq false [.int ⟨false, 8⟩ 0, .int ⟨false, 8⟩ 255, .int ⟨false, 8⟩ 7]), .wchar 9,
+    .out true [.str "x".toUTF8, .int ⟨false, 64⟩ (2 ^ 64 - 1), .str "word".toUTF8] ]
+def demoPlan : List Grp :=
+  [ .tup [(.int ⟨true, 128⟩ (-(2 ^ 127)), false), (.int ⟨true, 128⟩ (2 ^ 127 - 1), false)],
+    .vec [.int ⟨false, 8⟩] [[(.int ⟨false, 8⟩ 0, false)], [(.int ⟨false, 8⟩ 255, false)], [(.int ⟨false, 8⟩ 7, false)]],
+    .one (.str "x".toUTF8, true), .tup [(.int ⟨false, 64⟩ (2 ^ 64 - 1), false), (.str "word".toUTF8, false)] ]
+example : Writer.Op.validAll demoPlanOps = true ∧ Writer.sepOK demoPlanOps = true ∧ eligible demoPlanOps = true := by
+  decide +kernel
+example : script demoPlan = [.tuple [.int ⟨true, 128⟩, .int ⟨true, 128⟩], .vec [.int ⟨false, 8⟩] 3, .read .chr,
+    .tuple [.int ⟨false, 64⟩, .str], .eof] := by decide
+example : ∃ s, Writer.runOps ⟨39, false⟩ demoPlanOps Writer.WState.init = .ok s ∧
+    Reader.runScript ((Writer.txt (Writer.drop s).sink).length + 1) (script demoPlan)
+      (Reader.init 1 (bytewise (Writer.txt (Writer.drop s).sink))) = expected demoPlan := by
+  obtain ⟨s, e, _, h⟩ := write_then_read_plan ⟨39, false⟩ (by decide) demoPlanOps (by decide)
+    (Writer.tokenize_ops _ (by decide)) demoPlan (by decide) rfl
+  have hb := bytewise_spec (Writer.txt (Writer.drop s).sink)
+  exact ⟨s, e, h _ hb.2 hb.1 1 (by decide) _ (by rw [hb.1]; exact Nat.lt_succ_self _)⟩
+/-- The harness plan of the same script with `alt`: tuple read, `read_vec`, `char`, then leaf by leaf. -/
+example : script (planOps true demoPlanOps) = [.tuple [.int ⟨true, 128⟩, .int ⟨true, 128⟩], .vec [.int ⟨false, 8⟩] 3,
+    .read .chr, .read (.int ⟨false, 64⟩), .read .str, .eof] := by decide
+/-- What the driver computes for `r … rbuf=5 rc=3 alt=1` on this script's text, evaluated by the kernel, is the expected
+    answer (and `readback_driver` says so for every script). -/
+example : readBack 5 3 true demoPlanOps (Writer.txt (Writer.specOps demoPlanOps)) = expected (planOps true demoPlanOps) := by
+  decide +kernel
+example : ∃ s, Writer.runOps ⟨64, true⟩ demoPlanOps Writer.WState.init = .ok s ∧
+    readBack 65536 4095 false demoPlanOps (Writer.txt (Writer.drop s).sink) = expected (planOps false demoPlanOps) :=
+  readback_driver ⟨64, true⟩ (by decide) demoPlanOps (by decide) (by decide +kernel) 65536 (by decide) 4095 false
+/-- the schedule of the harness source for `rc = 3` on 8 bytes: two chunks, an `Interrupted`, the last chunk -/
+example : Reader.mkEvents (harnessSched 3 8) [1, 2, 3, 4, 5, 6, 7, 8] #[] =
+    [.data [1, 2, 3], .data [4, 5, 6], .intr, .data [7, 8]] := by decide +kernel
+
+/-- `write_char('a'); write_char(' '); write_char('b'); write_char('c'); write_char('\n')` → `a`, `b`, `c` -/
+example : ∃ s, Writer.runOps ⟨39, false⟩ (charOps [97, 32, 98, 99, 10]) Writer.WState.init = .ok s ∧
+    Reader.runScript 6 [.read .chr, .read .chr, .read .chr, .eof] (Reader.init 1 (bytewise (Writer.txt (Writer.drop s).sink)))
+    = [.out (.val (.chr 97)), .out (.val (.chr 98)), .out (.val (.chr 99)), .out (.bool true)] := by
+  obtain ⟨s, e, _, ht, h⟩ := write_chars_then_read ⟨39, false⟩ (by decide) [97, 32, 98, 99, 10]
+  have hb := bytewise_spec (Writer.txt (Writer.drop s).sink)
+  exact ⟨s, e, h _ hb.2 hb.1 1 (by decide) 6 (by rw [hb.1, ht]; decide)⟩
 
 /-- Lines with blanks, an empty line, a CR in the middle of a line. -/
 def demoLines : List ByteArray := ["a b  c".toUTF8, ByteArray.empty, "x\ry\t".toUTF8]
